@@ -1,6 +1,6 @@
 (* C12 — property theorems (statements only; the proofs live in the Acme.C12.Proofs... files). *)
 From Coq Require Import ZArith List Bool.
-From Acme.C12 Require Import Proto NetModel Save Load Proj Domain ProofsSel ProofsRT8 Proofs Builder.
+From Acme.C12 Require Import Proto NetModel Save Load Proj Domain ProofsSel ProofsRT8 Proofs Builder Refuted.
 From Acme.C13 Require Import ProofsBuilder.
 Import ListNotations.
 Open Scope Z_scope.
@@ -44,3 +44,11 @@ Print Assumptions built_wf.
 
 (* `built_load_save` (the round trip for every built network inside the value ranges) is the composition of `built_wf`
    and `load_save`: a corollary, `Acme.C13.ProofsBuilder.built_load_save_lemma`, not a property theorem of its own. *)
+
+(* `in_domain` is needed: one well-formed network per exclusion (integer beyond uint32, negative integer, enum-typed
+   constant outside the declared ones, bus type other than CAN 2.0A, integer attribute beyond int32, enum minimum size 0,
+   start value -0.0) for which load (save n) is NOT canon n.  The Go implementation shows the same losses on the
+   networks of these kinds built through the API (open findings c12-domain:KIND). *)
+Theorem in_domain_needed : Forall refutes domain_witnesses.
+Proof. exact in_domain_needed_lemma. Qed.
+Print Assumptions in_domain_needed.
